@@ -262,6 +262,7 @@ type genv struct {
 	ca      *caStub
 	conn    *vnet.Reactor
 	handler gensign.Handler
+	conf    *config.GensignConfig
 	hErr    error
 	log     []string
 	events  []string // fault events in the order they fired
@@ -376,6 +377,7 @@ func newEnv(o envOpt) *genv {
 	if err := json.Unmarshal(js, conf); err != nil {
 		panic(err)
 	}
+	e.conf = conf
 	e.handler, e.hErr = regular.NewHandler(conf, e.conn)
 	return e
 }
